@@ -7,7 +7,7 @@ package main
 //	alias \t C15 \t <template> \t <op> ; <op> ; … \t <ext> \t <obs> ## <obs> ## …
 //
 // ops: ce | cm <Dyn map> | cs <Dyn arr> | cj <hex> | cr <i> | um <i> <hex> | set <i> K:<hex> <Dyn>
-//      | iak <i> K:<hex> <Dyn> | ex <i> | cl <i> | st <hex> | imp <hex> (next line of one long-lived importer)
+//      | iak <i> K:<hex> <Dyn> | iap <i> K:<hex path> <Dyn> | ex <i> | cl <i> | st <hex> | imp <hex> (next line of one long-lived importer)
 // obs: e=<class|-> | proto=<Val> | <Val> ;; <Val> ;; …
 
 import (
@@ -48,6 +48,7 @@ func genC15(cw *caseWriter, seed uint64, tier string) {
 		cols := aliasCols(r)
 		t := buildTemplate(cols)
 		var rows []jsonline.Row
+		shared := map[int]bool{} // rows that were the source or the result of CreateRow(Row) / CloneRow
 		var ops, obs []string
 		ext := map[string]string{}
 		steps := 2 + r.intn(39)
@@ -70,11 +71,34 @@ func genC15(cw *caseWriter, seed uint64, tier string) {
 				}
 				return r.intn(len(rows))
 			}
-			k := r.intn(13)
-			if len(rows) == 0 && k > 4 && k < 11 {
+			k := r.intn(15)
+			if len(rows) == 0 && k > 4 && k < 11 || len(rows) == 0 && k > 12 {
 				k = 0
 			}
 			switch k {
+			case 13, 14:
+				// a nested mutation in place, through a dotted path into a declared sub-row or a parsed object
+				// only on rows that share nothing below the top level with another row: a nested row reached
+				// through two parents after CreateRow(Row) / CloneRow is shared by design (outside the statement)
+				var cand []int
+				for j := range rows {
+					if !shared[j] {
+						cand = append(cand, j)
+					}
+				}
+				if len(cand) == 0 {
+					rows = append(rows, t.CreateRowEmpty())
+					op = "ce"
+					break
+				}
+				i := pick(r, cand)
+				path := pick(r, []string{"p.zz", "p.aa", "new.q", "p", "a", "p.zz.x", "s"})
+				v := pick(r, vals)()
+				extForValue(v, ext)
+				op = fmt.Sprintf("iap %d K:%s %s", i, hx([]byte(path)), dynStr(v))
+				if err := rows[i].ImportAtPath(path, v); err != nil {
+					errc = errClass(err)
+				}
 			case 11, 12:
 				js := queue[0]
 				queue = queue[1:]
@@ -149,6 +173,7 @@ func genC15(cw *caseWriter, seed uint64, tier string) {
 				if err != nil {
 					errc = errClass(err)
 				} else {
+					shared[i], shared[len(rows)] = true, true
 					rows = append(rows, nr)
 				}
 			case 5:
@@ -185,6 +210,7 @@ func genC15(cw *caseWriter, seed uint64, tier string) {
 			case 9:
 				i := pickRow()
 				op = fmt.Sprintf("cl %d", i)
+				shared[i], shared[len(rows)] = true, true
 				rows = append(rows, jsonline.CloneRow(rows[i]))
 			default:
 				js := pick(r, jsons)
